@@ -6,7 +6,7 @@ import ast
 
 from ..interp import cval, has_const
 from ..source import norm_text
-from .geo import all_geos, geo_text, uniq_events
+from .geo import all_geos, geo_text, under, uniq_events
 
 TRAJ = 'gemdat.trajectory.Trajectory'
 
@@ -145,7 +145,7 @@ def check(ctx):
         ctx.ob('R2', fd, 'isinstance assertions', None, 'no isinstance assertion on species items found')
     # ---- R3
     it = runs['fixed_species']
-    reds = [e for e in uniq_events(it, {'reduce'}, lambda f: f.qualname == fd.qualname)]
+    reds = [e for e in uniq_events(it, {'reduce'}, under(fd.qualname))]
     if not reds:
         ctx.ob('R3', fd, 'mean over atoms', None, 'reduction not found')
     for e in reds:
